@@ -1,6 +1,7 @@
 """Shared set-up for interpreting parseFrame over the whole (ToS, opcode) space."""
 import sys
 
+import os
 from ..facts import AnalysisBroken
 from ..engine import Engine, run_entry, new_state, mk_obj
 from ..absint import Val
@@ -104,6 +105,7 @@ class FrameSetup(object):
         E = engine_cls(self.prog, port=self.port, summaries=sums, entry_name=name)
         E.loop_info = {}
         E.keep_iter_states = getattr(self, 'keep_iter_states', False)
+        E.debug_loops = bool(os.environ.get('LLTD_DEBUG_LOOPS'))
         mo = self.soff('mapper_real')
         E.tracked_preds = {'M': [(('in', 'st', mo + i), ('in', 'frame', 24 + i)) for i in range(6)],
                            'B': [(('in', 'frame', 24 + i), ('in', 'frame', 6 + i)) for i in range(6)]}
@@ -283,6 +285,8 @@ def _region_worker(args):
             item[2].counter = [0]
         if v.get('iter_start') is not None:
             v['iter_start'].counter = [0]
+        for s2 in (v.get('exit_snaps') or []):
+            s2.counter = [0]
     return region, [(st, v.t) for st, v in outs], None, obs, stats
 
 
